@@ -15,6 +15,7 @@
 #include "vmd_client.h"
 #include "../nanoisa/verifier.h"
 #include "../nanoisa/nvm_format.h"
+#include <signal.h>
 #include <stdio.h>
 #include <stdlib.h>
 #include <string.h>
@@ -136,6 +137,10 @@ static int run_standalone(const char *path) {
      * The cop is launched lazily on first extern call, not here. */
     if (g_isolate_ffi) {
         vm.isolate_ffi = true;
+        /* A co-process that died or closed its input must show up as a failed
+         * write (EPIPE -> the error paths in vm_ffi.c), not kill me with SIGPIPE
+         * and take my buffered output along.  nano_vmd does the same. */
+        signal(SIGPIPE, SIG_IGN);
     }
 
     VmResult result = vm_execute(&vm);
